@@ -771,6 +771,44 @@ func c13GenReals(c *Ctx, n int) {
 			c.Stat("real_dec_mutated", c13OutcomeClass(rr))
 		}
 	}
+	// 10-12 significant digits: the float computation rounds to nine digits ("to nine significant
+	// digits"); the expected value is the decimal rounding, ties and near-ties avoided
+	for i := 0; i < n/3+3; i++ {
+		nd := 10 + i%3
+		d := make([]byte, nd)
+		for j := range d {
+			d[j] = byte('0' + r.Intn(10))
+		}
+		d[0] = byte('1' + r.Intn(9))
+		// digit 10 decides the rounding; keep the tail away from 4999…/5000…
+		if d[9] == '4' || d[9] == '5' {
+			d[9] = '7'
+		}
+		l := r.Range(-12, 12)
+		neg := r.Chance(1, 3)
+		sign := ""
+		if neg {
+			sign = "-"
+		}
+		x, err := strconv.ParseFloat(sign+"0."+string(d)+"e"+strconv.Itoa(l), 64)
+		if err != nil {
+			continue
+		}
+		head, _ := strconv.Atoi(string(d[:9]))
+		if d[9] >= '5' {
+			head++
+		}
+		ll := l
+		if head == 1000000000 {
+			head = 100000000
+			ll++
+		}
+		hs := strings.TrimRight(strconv.Itoa(head), "0")
+		want := fmt.Sprintf("r%s%se%d", sign, hs, ll-len(hs))
+		enc := cff.VerifEncodeFloat(x)
+		c.Stat("real_digits", fmt.Sprint(nd))
+		c.Case(Direct, "cff.dict.specdec", fmt.Sprintf("data=1e%s11 custom= want=ok:17:%s", hx(enc), want), true)
+	}
 	// zero and hand-made nibble strings (syntax classes of ParseFloat)
 	for _, h := range []string{"0f", "ff", "a0f", "0aff", "1a2a3f", "e1f", "ee1f", "1bf", "1b2f", "1c2f", "1cc2f", "1be2f", "b1f",
 		"1dff", "af", "eaf", "a5ff", "5aff", "1b999f", "1c999f", "1b300f", "1b301f", "9b307f", "2b308f", "1b309f", "1c300f", "1c301f", "9c301f",
@@ -1538,6 +1576,16 @@ func c13GenFonts(c *Ctx, n int) {
 				if expert {
 					ev = cff.VerifExpertEncoding(gl)
 					encKind = "exp"
+					// Write tests for the standard encoding first: a vector that is both is "standard"
+					same := true
+					for cidx, g := range cff.StandardEncoding(gl) {
+						if ev[cidx] != g {
+							same = false
+						}
+					}
+					if same {
+						encKind = "std"
+					}
 				} else {
 					ev = cff.StandardEncoding(gl)
 					encKind = "std"
